@@ -8,6 +8,7 @@ id="$1"; tier="${2:-quick}"
 prop="${id%%.*}"
 case "$id" in
   *.r2) src="/tmp/mut2-$prop/SEEDED" ;;
+  *.r3) src="/tmp/mut3-$prop/SEEDED" ;;
   *)    src="/tmp/mut-$prop/SEEDED" ;;
 esac
 dst="seeded/$id"
